@@ -9,10 +9,15 @@ page-in job (create+read, callback), successful or failed.
   created/in_memory/paging_out/paged_in); that sum <= capacity; FreeSpaceResponse over the protocol reports the same
   number; an allocation that does not fit (w.r.t. that sum before the request) is not granted: answered `wait`, or
   refused when larger than the capacity; a page-in is only started when it fits; the memory really present in the
-  (fake) /dev/shm never exceeds the capacity.
+  (fake) /dev/shm never exceeds the capacity.  `capacity` is what the store has to work with: the configured value, but never
+  more than /dev/shm offers (every stream also starts servers configured with more than is available, or not configured).
+  While a completion callback of a disk job is in flight (stream conc: callbacks and job bodies run from yield point to
+  yield point with requests and other jobs' steps in between) the free space may lag behind by the sizes of the datasets whose
+  callbacks are in flight -- wherever the callback is parked; once no callback is in flight the equation is exact again.
 * correspondence: the same op lists are evaluated by the Coq model (Shm/Manager.v) and every response, every
   free-space report and every job submission is compared inside Coq (Shm/ManagerCheck.check_case)."""
 import itertools
+import time as _time
 import json
 
 import shm_common as S
@@ -21,6 +26,10 @@ from common import coq_results, coq_print, load_findings
 TRUSTED = [
     "harness/shm_common.py + harness/fakes/shm_fakes.py: in-memory SharedMemory/open registry (POSIX create/open/unlink semantics), manual executor that "
     "splits each Disk job into the real body and the real Manager callback, scripted time_ns/uuid4, scripted UDP socket under the real LocalServer.start",
+    "cooperative scheduler (fakes/shm_fakes.py Task/Sched): job bodies and Manager callbacks run in their own threads and are parked at their yield points -- "
+    "calls of the module-level loggers (replaced by a silent stand-in), blocking acquisitions of the Manager's plain locks (wrapped from outside), every "
+    "operation on the fake SharedMemory and on the page files; exactly one of {history thread, one task} runs at a time; a task holding a watched lock is not parked",
+    "what /dev/shm offers is scripted per history through dataset.get_capacity and through a stand-in for dataset.subprocess that answers findmnt",
     "key string -> number map (injective per history); shmid handed out by the server is checked to be a function of the key and collision free per history",
 ]
 ASSUMPTIONS = [
@@ -29,9 +38,12 @@ ASSUMPTIONS = [
     "(CPython 3.12 switches threads only at calls/back-edges; the counters are updated by single += statements); every order of these steps is covered",
     "the md5-derived shmid is injective on the keys in use (model: shmid = key)",
     "sizes arrive through the protocol as unsigned integers; capacity >= 0",
+    "finer than that (stream conc, Shm/ManagerConc.v): a completion callback may be parked at any blocking lock acquisition (model and "
+    "implementation compared) and at any log call / segment operation (oracle only), a page-in or page-out body at any log call / segment / file "
+    "operation, with requests and steps of other jobs in between; code between two yield points and code under a lock is atomic",
     "C08_accounting_partial / C08_never_granted_early_partial: no page-out job completes successfully for a dataset object that was purged "
     "after the job was issued (the open finding readd-during-pageout; C08_accounting_refuted is its witness)",
-    "Manager.atexit / is_exit=True purges and get_capacity() trimming are not modelled",
+    "Manager.atexit / is_exit=True purges are not modelled; what findmnt reports for /dev/shm is constant during a history",
 ]
 
 SIG_READD = "readd-during-pageout"
@@ -46,13 +58,20 @@ class Watch:
         self.bad = []            # (signature, what, index)
         self.resident_before = 0
         self.stats = {"granted": 0, "wait": 0, "refused": 0, "pageout": 0, "pagein": 0, "max_resident": 0, "jobs_failed": 0}
+        self.discount_before = 0
 
     def __call__(self, d, i, op, ob):
         m, cap = d.m, self.capacity
         total = S.resident_total(m)
         free_reported = ob[-2]
-        before = self.resident_before
-        self.resident_before = total
+        # datasets whose completion callback is in flight (parked somewhere between its first and its last statement): in transition
+        flying = d.board.cb_in_flight()
+        slack = sum(getattr(d.job_obj.get(j.jid), "size", 0) for j in flying)
+        # ... and those of them whose page-out has succeeded are physically gone: a grant that counts on their space is not early
+        gone = sum(ds.size for j in flying for ds in [d.job_obj.get(j.jid)]
+                   if j.kind == "out" and j.ok and ds is not None and m.datasets.get(d.key_for(j.shmid)) is ds and ds.status.name == "paging_out")
+        before = self.resident_before - self.discount_before
+        self.resident_before, self.discount_before = total, gone
         self.stats["max_resident"] = max(self.stats["max_resident"], total)
 
         def bad(sig, what):
@@ -60,8 +79,11 @@ class Watch:
                 sig = S_or(sig)
             self.bad.append((sig, f"op {i} {op}: {what}", i))
 
-        if m.free_space != cap - total:
-            bad("free-space-accounting", f"free_space={m.free_space} but capacity - resident = {cap} - {total} = {cap - total}; datasets {S.snapshot(m)}")
+        if m.capacity != cap:
+            bad("capacity-not-what-is-available", f"Manager.capacity={m.capacity}, configured {d.configured}, /dev/shm offers {d.avail}: the store has {cap} to work with")
+        if abs(m.free_space - (cap - total)) > slack:
+            bad("free-space-accounting", f"free_space={m.free_space} but capacity - resident = {cap} - {total} = {cap - total}"
+                + (f" (callbacks in flight for {slack} bytes)" if flying else "") + f"; datasets {S.snapshot(m)}")
         if total > cap:
             bad("resident-exceeds-capacity", f"resident total {total} > capacity {cap}; datasets {S.snapshot(m)}")
         if free_reported != m.free_space:
@@ -104,8 +126,9 @@ def S_or(sig):
 
 
 def evaluate(env, cap, ops):
-    w = Watch(cap)
+    w = Watch(S.cfg_of(cap)[2])
     d = S.Driver(env, cap, ops, w)
+    cap = d.effective
     d.wild_write = False
     # a write is "wild" when no allocation for that key was granted before it: then the client, not the store, fills /dev/shm
     obs, crash = d.run()
@@ -142,7 +165,18 @@ def corpus():
                      ["unlink", 0], ["cb", 0], ["add", "k3", 8, 3], ["add", "k4", 8, 4]])
     rewrite = (3, [["alloc", "k1", "0102", 4, 0], ["alloc", "k2", "0304", 4, 0], ["read", "k1", 4, 0], ["purge", "k1"], ["alloc", "k1", "0a0b", 4, 0],
                    ["read", "k2", 4, 0], ["read", "k1", 4, 0]])
-    return [readd, leak, test_shm, failed, purge_race, midpurge, rewrite]
+    # a server configured with more than /dev/shm offers (16 on a /dev/shm of 10), one that is not configured (None) and one that asks for less
+    trimmed = ([16, 10], [["add", "k0", 11, 1], ["add", "k1", 8, 2], ["write", "k1", "0102030405060708"], ["close", "k1", None], ["get", "k1", 3, [1]],
+                          ["add", "k2", 8, 4], ["close", "k1", 1], ["add", "k2", 8, 5], ["drain"], ["add", "k2", 8, 6], ["add", "k3", 2, 7], ["add", "k4", 1, 8]])
+    default = ([None, 6], [["add", "a", 7, 1], ["add", "a", 4, 2], ["add", "b", 2, 3], ["add", "c", 1, 4]])
+    less = ([4, 9], [["add", "a", 5, 1], ["add", "a", 4, 2], ["add", "b", 1, 3]])
+    # requests and other completions while the completion callback of a page-out is parked right before it takes pageout_one
+    during_cb = (10, [["add", "k1", 6, 1], ["write", "k1", "010203040506"], ["close", "k1", None], ["add", "k2", 8, 2], ["io", 0, False], ["unlink", 0],
+                      ["cpart", 0], ["add", "k3", 4, 3], ["write", "k3", "0a0b0c0d"], ["close", "k3", None], ["cpart", 0], ["add", "k2", 8, 4], ["drain"], ["add", "k2", 8, 5]])
+    two_cbs = (10, [["add", "k1", 3, 1], ["write", "k1", "010203"], ["close", "k1", None], ["add", "k2", 3, 2], ["write", "k2", "040506"], ["close", "k2", None],
+                    ["add", "k3", 10, 3], ["io", 0, False], ["io", 1, False], ["unlink", 1], ["unlink", 0], ["cpart", 0], ["cpart", 1], ["cpart", 0], ["cpart", 1],
+                    ["add", "k3", 10, 4], ["add", "k4", 1, 5]])
+    return [readd, leak, test_shm, failed, purge_race, midpurge, rewrite, trimmed, default, less, during_cb, two_cbs]
 
 
 def small_scope(maxlen):
@@ -174,6 +208,7 @@ def nontrivial(obs):
 
 
 def run(ctx, res):
+    t_start = _time.time()
     listed = {f["signature"] for f in load_findings().get("open", []) if f.get("property") == "C08"}
     res.rule = ("an op list (allocate / client write / finish-write / get / finish-read / purge over 1-5 keys, capacity 1-16, sizes 1..capacity+2 and a few "
                 "huge ones, interleaved with the io and callback halves of page-out/page-in jobs incl. injected disk faults, clock jumps beyond the "
@@ -195,22 +230,35 @@ def run(ctx, res):
     rng = ctx.sub_rng("rewrite")
     for _ in range(ctx.n(100, 2000)):
         streams.append(("rewrite",) + S.rewrite_history(rng))
+    rng = ctx.sub_rng("conc")
+    for _ in range(ctx.n(160, 3000)):
+        streams.append(("conc",) + S.conc_history(rng))
+    # how the store comes by its capacity: every stream also runs on servers configured with more than /dev/shm offers, or not at all
+    rng = ctx.sub_rng("config")
+    streams = [(kind, c if kind == "corpus" else S.with_config(rng, c), o) for kind, c, o in streams]
     for c, o in small_scope(ctx.n(3, 4)):
         streams.append(("small-scope", c, o))
-    terms, metas = [], []
+    terms, metas, fterms, fmetas = [], [], [], []
     with S.patched() as env:
+        stream_s = {}
         for kind, cap, ops in streams:
+            t_h = _time.time()
             d, obs, crash, bad, w = evaluate(env, cap, ops)
+            stream_s[kind] = stream_s.get(kind, 0.0) + _time.time() - t_h
             res.evaluations += 1
             res.count(f"stream:{kind}")
             case = {"capacity": cap, "ops": ops, "stream": kind}   # ops: macros are expanded in place by the run
             if nontrivial(obs):
                 res.nontrivial_keys.add(S.hist_key(cap, ops))
+            if isinstance(cap, list):
+                res.count("config:not-configured" if not cap[0] else "config:more-than-available" if cap[0] > cap[1] else "config:at-most-available")
+            for k in d.conc:
+                res.count("conc:" + k)
             if kind != "small-scope":
                 for k, v in w.stats.items():
                     if k != "max_resident" and v:
                         res.count(f"histories-with-{k}")
-                if w.stats["max_resident"] == cap:
+                if w.stats["max_resident"] == d.effective:
                     res.count("histories-reaching-full-store")
                 for e in d.events:
                     res.count("event:" + e[0])
@@ -223,11 +271,16 @@ def run(ctx, res):
                     res.fail(sig, what, case)
             if len(res.samples) < 3 and kind == "pressure" and nontrivial(obs):
                 res.samples.append({"capacity": cap, "ops": ops[:14], "observations": obs[:14]})
-            if crash is None and len(obs) == len(ops):
+            if crash is not None or len(obs) != len(ops):
+                res.count("not-compared:crashed")
+            elif d.unmodelled:
+                res.count("not-compared:finer-than-the-model")        # oracle only
+            elif d.fine:
+                fterms.append(S.c_fcase(cap, ops, obs))
+                fmetas.append((case, obs))
+            else:
                 terms.append(S.c_case(cap, ops, obs))
                 metas.append((case, obs))
-            else:
-                res.count("not-compared:crashed")
         # the witness of C08_accounting_refuted must still fail on the implementation (else the model is out of date)
         wcap, wops = corpus()[0]
         d, obs, crash, bad, w = evaluate(env, wcap, wops)
@@ -235,7 +288,13 @@ def run(ctx, res):
         if not (S.readd_evidence(d) and any(b[0] == SIG_READD for b in bad)):
             res.disagree("the witness of C08_accounting_refuted (readd-during-pageout) no longer breaks the accounting on the implementation: "
                          "the model (and the _partial/_refuted split) is out of date", {"capacity": wcap, "ops": wops, "observations": obs})
+    t_impl = _time.time()
     results, logs = coq_results("C08", S.HEADER, terms, "check_case", tag="hist", shard=250)
+    fresults, flogs = coq_results("C08", S.HEADER, fterms, "check_fcase", tag="fine", shard=250) if fterms else ([], [])
+    res.count("compared:fine-grained-histories", len(fresults))
+    res.extra["phase_s"] = {"implementation+oracle": round(t_impl - t_start, 1), "coq-correspondence": round(_time.time() - t_impl, 1),
+                            "per-stream": {k: round(v, 1) for k, v in stream_s.items()}}
+    results, logs, metas = results + fresults, logs + flogs, metas + fmetas
     res.corr_checked += len(results)
     for r, (case, obs) in zip(results, metas):
         if r is not True:
@@ -253,7 +312,8 @@ def search(ctx, res):
     def many():
         rng = ctx.sub_rng("search")
         for i in range(8000):
-            yield [S.pressure_history, S.midpurge_history, S.gen_history, S.rewrite_history][i % 4](rng)
+            c, o = [S.pressure_history, S.midpurge_history, S.gen_history, S.rewrite_history, S.conc_history][i % 5](rng)
+            yield S.with_config(rng, c), o
     with S.patched() as env:
         for cap, ops in itertools.chain(first, corpus(), many(), small_scope(4)):
             d, obs, crash, bad, w = evaluate(env, cap, ops)
